@@ -30,6 +30,7 @@ func runC09(w *World) {
 	}
 	p := s.P
 	p.Plug.Oracle = true
+	s.PriorSession(w)
 	c := s.E.OpenConn(p, dir, time.Minute)
 	if c == nil {
 		w.HarnessError("C09: no connection (dir %v)", dir)
